@@ -30,6 +30,10 @@ pub fn consumed_fields(ctx: &mut Ctx, rng: &mut Rng, idx: &mut u64) {
         for j in 0..rng.below(10) {
             fields.push((format!("x-{}", rng.below(4)), format!("v{j}")));
         }
+        // a declared length (with `expect`, the combination "nothing to wait for"), and values with VT / FF at their edges
+        // (not whitespace for HTTP: they belong to the value)
+        if rng.chance(1, 3) { fields.push((rng.pick(&["content-length", "Content-Length"]).to_string(), rng.pick(&["0", "4", "0"]).to_string())); }
+        if rng.chance(1, 6) { fields.push((format!("x-{}", rng.below(4)), rng.pick(&["\u{b}v", "v\u{c}", "\u{c}", "a\u{b}b", "\u{1f}v\u{7f}"]).to_string())); }
         // repeated Cookie fields stay separate fields, in place
         for j in 0..rng.below(4) {
             if rng.chance(1, 3) { fields.push((rng.pick(&["Cookie", "cookie"]).to_string(), format!("c{j}=v{j}"))); }
